@@ -454,6 +454,11 @@ def step (w : World) (line : String) : World × String :=
         | .inserted n => (w, "inserted " ++ toString n)
       | none => (w, "no-store")
     | _, _ => (w, "bad-op")
+  -- an entry written somewhere in a swarm: recorded as offered (for `join`), applied nowhere
+  | ["soffer", sid, tok] =>
+    match parseNat? sid, parseEntry? tok with
+    | some sid, some e => (w.addOffered sid e, "ok")
+    | _, _ => (w, "bad-op")
   -- `Replica::insert`: the emptiness guard, then `put` (a refused write was never offered)
   | ["insertlocal", sid, tok] =>
     match parseNat? sid, parseEntry? tok with
